@@ -119,6 +119,11 @@ def sweep(ctx, rep, model, focus):
             if fa == fb or fa.startswith(str(fb)) or fb.startswith(str(fa)):
                 continue
             fault = True if (a[2] is True or b[2] is True) else None
+            # coordinated edits of the same box's index range in the level header and in its FAB header can
+            # cancel (both then name the same other range): such a pair is not certainly a fault
+            fam = {"cellh-index-mismatch", "fab-index-shift", "fab-shape"}
+            if a[3] in fam and b[3] in fam and a[1] == b[1]:
+                fault = None
             lv = min([x[1] for x in (a, b) if x[2] is True] or [a[1]])
             try:
                 judge(ctx, rep, spec, pristine, ptree, [a[0], b[0]], None, False, batch, pend, focus, fault,
